@@ -32,55 +32,111 @@ def promoted_const(mir, fn_name_suffix, idx):
     return None
 
 
-def call_side(mir):
-    name = mir.find(r"::execute_switch_on_term$")
-    body = mir.body(name[0])
-    gets = [(bb, ls[-1]) for bb, ls in body.blocks.items()
-            if re.search(r"IndexMap::<types::HeapCellValue, instructions::IndexingCodePtr.*>::get", ls[-1])]
-    if len(gets) != 1:
-        raise core.Unsupported("expected one constant-table lookup, found %d" % len(gets))
-    succ = re.search(r"return: (bb\d+)", gets[0][1]).group(1)
-    entry = util.arm_entry(body, "SwitchOnConstant")
-    paths = core.Executor(body, stop_blocks=[succ], max_depth=200).run(entry)
+LOOKUP = r"IndexMap::<types::HeapCellValue, instructions::IndexingCodePtr.*>::get"
+
+
+def key_expression(p, key):
+    """classify the expression handed to IndexMap::get on path p"""
+    kv = p.env.get(key[1]) if key[0] == "ref" else key
+    if kv is None:
+        return {"kind": "unknown"}
+    if kv[0] == "s" or kv[0] == "proj":
+        return {"kind": "raw", "cell": kv}
+    if kv[0] == "app" and kv[1].endswith("switch_on_constant_key"):
+        return {"kind": "helper", "cell": kv[2][1] if len(kv[2]) > 1 else None}
+    def mentions(t, pat, depth=0):
+        if t is None or depth > 10:
+            return False
+        if t[0] == "app":
+            return bool(re.search(pat, t[1])) or any(mentions(a, pat, depth + 1) for a in t[2])
+        if t[0] in ("proj", "disc"):
+            return mentions(t[1], pat, depth + 1)
+        if t[0] in ("agg", "op"):
+            return any(mentions(a, pat, depth + 1) for a in t[2])
+        return False
+    if mentions(kv, r"AtomCell::build_with$|AtomCell::new_"):
+        return {"kind": "atom_cell"}          # a freshly built atom key: not a number
+    chain, t, addr = [], kv, None
+    while t is not None and t[0] == "app":
+        chain.append(t[1].split("::")[-1])
+        if t[1].endswith("unwrap_or"):
+            addr = t[2][1]
+        t = t[2][0] if t[2] else None
+        if t is not None and t[0] == "agg" and t[1] == "tuple":
+            t = t[2][0]
+    fn_args = [str(e[2][1]) for e in p.events if e[0] == "call" and
+               (e[1].endswith("and_then") or e[1].endswith("::map"))]
+    if (chain[:5] == ["unwrap_or", "map", "and_then", "ok", "try_from"] and
+            any("constant_key_alternatives" in a for a in fn_args) and
+            any("HeapCellValue as From<ast::Literal>" in a for a in fn_args) and addr == t):
+        return {"kind": "inline_normalised", "cell": t}
+    return {"kind": "unknown", "chain": chain}
+
+
+def tag_guard(p):
+    for tm, op, v in p.conds:
+        if tm[0] == "app" and tm[1].endswith("PartialEq>::eq"):
+            return (v != 0) if op == "==" else (0 in v)
+    return None
+
+
+def helper_facts(mir):
+    """MachineState::switch_on_constant_key: under which guard it normalises"""
+    names = mir.find(r"::switch_on_constant_key$")
+    if not names:
+        return None
+    body = mir.body(names[0])
+    paths = core.Executor(body, max_depth=200).run("bb0")
     facts = []
     for p in paths:
-        g = [e for e in p.events if e[0] == "call" and re.search(r"IndexingCodePtr.*>::get$", e[1])]
-        if not g or p.end != succ:
-            raise core.Unsupported("a path of the SwitchOnConstant arm does not reach the lookup")
-        key = g[0][2][1]
-        kv = p.env.get(key[1]) if key[0] == "ref" else key
-        addr = None
-        chain = []
-        t = kv
-        # unwrap_or(map(and_then(ok(try_from((addr, tbl))), constant_key_alternatives), from), addr)
-        while t is not None and t[0] == "app":
-            chain.append(t[1].split("::")[-1])
-            if t[1].endswith("unwrap_or"):
-                addr = t[2][1]
-            t = t[2][0] if t[2] else None
-            if t is not None and t[0] == "agg" and t[1] == "tuple":
-                t = t[2][0]
-        fn_args = []
-        for e in p.events:
-            if e[0] == "call" and e[1].endswith("and_then"):
-                fn_args.append(str(e[2][1]))
-            if e[0] == "call" and e[1].endswith("::map"):
-                fn_args.append(str(e[2][1]))
-        normalises = (chain[:5] == ["unwrap_or", "map", "and_then", "ok", "try_from"] and
-                      any("constant_key_alternatives" in a for a in fn_args) and
-                      any("HeapCellValue as From<ast::Literal>" in a for a in fn_args))
-        raw = kv is not None and kv[0] == "s"
-        # guard: eq(get_tag(addr), promoted const)
-        guard = None
-        for tm, op, v in p.conds:
-            if tm[0] == "app" and tm[1].endswith("PartialEq>::eq"):
-                truth = (v != 0) if op == "==" else (0 in v)
-                guard = truth
-        same_cell = (raw and kv == t) or (normalises and addr == t) or raw
-        facts.append({"guard_tag_eq": guard, "normalises": normalises, "raw": raw,
-                      "root": util.term_str(t) if t else None, "chain": chain})
-    tagc = promoted_const(mir, "execute_switch_on_term", 0)
-    return facts, tagc
+        if p.end != "return":
+            continue
+        r = p.env.get("_0")
+        ke = key_expression(p, r) if r is not None else {"kind": "unknown"}
+        if r == ("s", "_2"):
+            ke = {"kind": "raw"}
+        facts.append({"guard_tag_eq": tag_guard(p), "kind": ke["kind"]})
+    tagc = None
+    for cand in ("switch_on_constant_key",):
+        tagc = promoted_const(mir, cand, 0)
+    return {"paths": facts, "guard_constant": tagc}
+
+
+def call_side(mir):
+    """every function that looks a cell up in a constant index table"""
+    sites = []
+    for name in mir.index:
+        if name.startswith("indexing::"):
+            continue          # clause-side maintenance (keys come from literals): clause_side()
+        for (s0, e0) in mir.index[name]:
+            if any(re.search(LOOKUP, l) for l in mir.lines[s0:e0]):
+                sites.append(name)
+                break
+    if not sites:
+        raise core.Unsupported("no constant-table lookup found")
+    out = []
+    for name in sites:
+        body = mir.body(name)
+        gets = [(bb, ls[-1]) for bb, ls in body.blocks.items() if re.search(LOOKUP, ls[-1])]
+        for bb, term in gets:
+            succ = re.search(r"return: (bb\d+)", term).group(1)
+            # walk back to the start of the straight-line / branching region of this arm
+            try:
+                entry = util.arm_entry(body, "SwitchOnConstant")
+            except core.Unsupported:
+                entry = bb
+            paths = core.Executor(body, stop_blocks=[succ], max_depth=200).run(entry)
+            kinds = []
+            for p in paths:
+                g = [e for e in p.events if e[0] == "call" and re.search(LOOKUP.replace(".*", ".*") + "$", e[1])]
+                if not g or p.end != succ:
+                    continue
+                ke = key_expression(p, g[0][2][1])
+                kinds.append({"kind": ke["kind"], "guard_tag_eq": tag_guard(p)})
+            if not kinds:
+                raise core.Unsupported("lookup in %s not reached from its SwitchOnConstant arm" % name)
+            out.append({"fn": name.split("::")[-1], "paths": kinds})
+    return out
 
 
 def clause_side(mir):
@@ -198,22 +254,45 @@ def run(thorough=False):
     try:
         mir, secs, cached = util.get()
         rt_got, rt_spec = routing(mir)
-        cs, tagc = call_side(mir)
+        cs = call_side(mir)
+        hf = helper_facts(mir)
         cl = clause_side(mir)
         af = alternatives_fn(mir)
     except Exception as e:  # noqa
         log("  mirsmt C06: cannot extract (%s)" % e)
         return {"exit": EXIT_INCONCLUSIVE, "mirsmt_error": str(e)}
     # ---- instantiate the cell model with the extracted facts
-    # call side: normalise(A) when guard(tag(A) == tagc) path normalises
-    norm_when_cons = any(f["normalises"] and f["guard_tag_eq"] in (True, None) for f in cs) and \
-        (tagc or "").endswith("::Cons")
-    norm_always = any(f["normalises"] and f["guard_tag_eq"] is None for f in cs)
-    raw_else = all((f["raw"] or f["normalises"]) for f in cs)
-    if not raw_else:
-        log("  mirsmt C06: unrecognised key expression on the call side: %s" % cs)
+    # a lookup site normalises iff its key goes through the helper (and the helper normalises
+    # Cons cells) or through the inline chain under a Cons guard; else it uses the raw cell
+    def helper_normalises():
+        if not hf:
+            return False
+        ps = hf["paths"]
+        return any(x["kind"] == "inline_normalised" and x["guard_tag_eq"] in (True, None) for x in ps) \
+            and all(x["kind"] in ("inline_normalised", "raw") for x in ps) \
+            and (hf["guard_constant"] or "").endswith("::Cons")
+    tagc = (hf or {}).get("guard_constant") or promoted_const(mir, "execute_switch_on_term", 0)
+    site_norm = {}
+    unknown = []
+    for site in cs:
+        kinds = {x["kind"] for x in site["paths"]}
+        if kinds <= {"atom_cell"}:
+            continue                          # only atoms are looked up here
+        if "unknown" in kinds:
+            unknown.append(site)
+        if kinds <= {"helper"}:
+            site_norm[site["fn"]] = helper_normalises()
+        elif kinds <= {"inline_normalised", "raw"} and "inline_normalised" in kinds:
+            site_norm[site["fn"]] = (tagc or "").endswith("::Cons")
+        else:
+            site_norm[site["fn"]] = False
+    if unknown:
+        log("  mirsmt C06: unrecognised key expression at a lookup site: %s" % unknown)
         return {"exit": EXIT_INCONCLUSIVE, "mirsmt_error": "call-side key expression not understood",
                 "mirsmt_call_side": cs}
+    norm_all = all(site_norm.values())
+    norm_when_cons = norm_all
+    norm_always = False
     alt_ok = af["Integer"] and af["Rational"] and af["rational_guard"]
     prelude = """
 (declare-datatypes ((Kind 0)) (((Fix) (Big) (Rat))))
@@ -259,7 +338,8 @@ def run(thorough=False):
            "mirsmt_routing": rt_got,
            "mirsmt_regions": ["execute_switch_on_term (SwitchOnConstant arm)",
                               "CodeOffsets::index_constant", "constant_key_alternatives"],
-           "mirsmt_facts": {"call_side": cs, "call_guard_constant": tagc, "clause_side": cl,
+           "mirsmt_facts": {"lookup_sites": cs, "helper": hf, "site_normalises": site_norm,
+                            "call_guard_constant": tagc, "clause_side": cl,
                             "constant_key_alternatives": af},
            "mirsmt_seconds": br["z3_s"],
            "mirsmt_assumptions": ["HeapCellValue equality is raw-bits equality (derived Eq)",
@@ -276,10 +356,9 @@ def run(thorough=False):
          "answer": a_fit["answer"], "model": a_fit["model"]},
         {"query": "same, for values outside the fixnum range", "answer": a_big["answer"],
          "model": a_big["model"]}]
-    log("  mirsmt C06: call side normalises=%s (guard %s), clause side primary=%s alt=%s, "
+    log("  mirsmt C06: lookup sites %s (guard %s), clause side primary=%s alt=%s, "
         "alternatives fn ok=%s; fitting values: %s, non-fitting values: %s" % (
-            norm_when_cons or norm_always, tagc, cl["primary"], cl["alt"], alt_ok,
-            a_fit["answer"], a_big["answer"]))
+            site_norm, tagc, cl["primary"], cl["alt"], alt_ok, a_fit["answer"], a_big["answer"]))
     from .. import prolog
     exit_code = EXIT_OK
     a_rt = br["results"][2]["answer"]
